@@ -6,6 +6,12 @@
 //   pf <fmt-hex> <bits> [<int> [<int>]]   __printf(fmt, [star args,] double) through a
 //                                          variadic shim; <bits> = the 16 hex digits of
 //                                          the IEEE-754 binary64 argument
+//   pfL <fmt-hex> <se> <mant> [<int>..]   the same with an `L` directive and a long double argument
+//                                          given as the 4 hex digits of sign+exponent and the 16 of the
+//                                          x87 significand; print_f narrows it to double first, so the
+//                                          oracle judges the text against (double)arg
+//   pfa <fmt-hex> <bits>                   %a / %A (probe of finding C13-hex-float only; not modelled)
+//   ar cvt <se> <mant>                     (double) of a long double: one rounding (ties the narrowing)
 //   ar <op> <bits> [<bits>|<int>]          one arithmetic primitive on the host FPU/libm
 //                                          (add mul div fmod modf round pow): ties the
 //                                          model's software binary64 to the hardware
@@ -134,7 +140,7 @@ static Dir parse_dir(const std::string &f, const std::vector<long> &star)
         else
             while (i < f.size() && isdigit((unsigned char)f[i])) d.prec = d.prec * 10 + (f[i++] - '0');
     }
-    if (i < f.size() && f[i] == 'l') i++;
+    if (i < f.size() && (f[i] == 'l' || f[i] == 'L')) i++;
     if (i >= f.size()) return d;
     d.conv = f[i++];
     if (!strchr("fFeEgG", d.conv)) return d;
@@ -335,14 +341,39 @@ static long double unit_of(const Dir &d, const Shape &S, double x)
 
 // `strict` (op pfs): the allowance is ALLOW_BASE ulps for every argument; used by the
 // probes of finding C13-ulp-drift
-static void run_pf(const std::vector<std::string> &w, out &o, bool strict)
+static long double ld_of(unsigned se, uint64_t m)
 {
-    if (w.size() < 3) { o.result = "bad-op"; o.fail("bad op"); return; }
+    long double v = 0;
+    unsigned char b[16] = {0};
+    memcpy(b, &m, 8);
+    b[8] = (unsigned char)(se & 0xff);
+    b[9] = (unsigned char)(se >> 8);
+    memcpy(&v, b, 10);
+    return v;
+}
+
+static void run_pf(const std::vector<std::string> &w, out &o, bool strict, bool isL = false)
+{
+    if (w.size() < (isL ? 4u : 3u)) { o.result = "bad-op"; o.fail("bad op"); return; }
     bytes fb = unhex(w[1]);
     std::string fmt(fb.begin(), fb.end());
-    double x = of_bits(strtoull(w[2].c_str(), 0, 16));
+    long double ld = 0;
+    double x;
+    if (isL)
+    {
+        ld = ld_of((unsigned)strtoul(w[2].c_str(), 0, 16), strtoull(w[3].c_str(), 0, 16));
+        volatile double nx = (double)ld; // the narrowing print_f performs
+        x = nx;
+        if (fmt.find('L') == std::string::npos) { o.result = "bad-op"; o.fail("pfL without L"); return; }
+        o.tag("L");
+        if (std::isfinite(ld) && !std::isfinite(x)) o.tag("L-overflow");
+        if (ld != 0 && x == 0) o.tag("L-underflow");
+        if ((long double)x != ld) o.tag("L-inexact");
+    }
+    else
+        x = of_bits(strtoull(w[2].c_str(), 0, 16));
     std::vector<long> star;
-    for (size_t i = 3; i < w.size(); i++) star.push_back(strtol(w[i].c_str(), 0, 10));
+    for (size_t i = isL ? 4 : 3; i < w.size(); i++) star.push_back(strtol(w[i].c_str(), 0, 10));
     Dir d = parse_dir(fmt, star);
     if (!d.ok || (size_t)d.stars != star.size()) { o.result = "bad-op"; o.fail("bad op"); return; }
 
@@ -352,7 +383,15 @@ static void run_pf(const std::vector<std::string> &w, out &o, bool strict)
     exact_buf fbuf(fzv);
     Sink s;
     int ret;
-    if (star.size() == 0) ret = shim(&s, (const char *)fbuf.p, x);
+    if (isL)
+    {
+        if (star.size() == 0) ret = shim(&s, (const char *)fbuf.p, ld);
+        else if (star.size() == 1) ret = shim(&s, (const char *)fbuf.p, (int)star[0], ld);
+        else ret = shim(&s, (const char *)fbuf.p, (int)star[0], (int)star[1], ld);
+        // reference: glibc on the narrowed value with the same directive without L
+        fmt.erase(fmt.find('L'), 1);
+    }
+    else if (star.size() == 0) ret = shim(&s, (const char *)fbuf.p, x);
     else if (star.size() == 1) ret = shim(&s, (const char *)fbuf.p, (int)star[0], x);
     else ret = shim(&s, (const char *)fbuf.p, (int)star[0], (int)star[1], x);
     o.result = std::to_string(ret) + " " + hex(s.out);
@@ -445,10 +484,43 @@ static void run_pf(const std::vector<std::string> &w, out &o, bool strict)
     else o.fail("differs from glibc away from a tie: igris <" + outs + "> glibc <" + refs + ">");
 }
 
+// %a / %A: ISO C 7.21.6.1 — [-]0xh.hhhhp±d, the exponent is a DECIMAL power of TWO; parsed back
+// with strtod the text must give the argument (exactly, when the precision is omitted)
+static void run_pfa(const std::vector<std::string> &w, out &o)
+{
+    if (w.size() < 3) { o.result = "bad-op"; o.fail("bad op"); return; }
+    bytes fb = unhex(w[1]);
+    std::string fmt(fb.begin(), fb.end());
+    double x = of_bits(strtoull(w[2].c_str(), 0, 16));
+    bytes fzv(fmt.begin(), fmt.end());
+    fzv.push_back(0);
+    exact_buf fbuf(fzv);
+    Sink s;
+    int ret = shim(&s, (const char *)fbuf.p, x);
+    o.result = std::to_string(ret) + " " + hex(s.out);
+    o.tag("hex-float");
+    if (ret != (int)s.calls) o.fail("returned " + std::to_string(ret) + " but emitted " + std::to_string(s.calls));
+    std::string outs(s.out.begin(), s.out.end());
+    char ref[128];
+    gshim(ref, sizeof ref, fmt.c_str(), x);
+    char *e = 0;
+    double back = strtod(outs.c_str(), &e);
+    if (*e || back != x) o.fail("hex float: igris <" + outs + "> parses back to " + std::to_string(back) + ", glibc <" + ref + ">");
+}
+
 static void run_ar(const std::vector<std::string> &w, out &o)
 {
     if (w.size() < 3) { o.result = "bad-op"; o.fail("bad op"); return; }
     const std::string &op = w[1];
+    if (op == "cvt" && w.size() >= 4)
+    {
+        o.tag("ar-cvt");
+        volatile long double l = ld_of((unsigned)strtoul(w[2].c_str(), 0, 16), strtoull(w[3].c_str(), 0, 16));
+        volatile double r = (double)l;
+        double rr = r;
+        o.result = std::isnan(rr) ? "nan" : hexn(bits_of(rr), 16);
+        return;
+    }
     auto B = [&](size_t i) { return of_bits(strtoull(w[i].c_str(), 0, 16)); };
     volatile double a, b = 0, r = 0;
     o.tag(("ar-" + op).c_str());
@@ -627,6 +699,44 @@ struct Gen
         puts(l.c_str());
     }
 
+    // long double arguments of the L directives: doubles with extra low bits (the narrowing
+    // rounds), exact halfway cases between two doubles, magnitudes beyond / below the double range
+    long double ldvalue()
+    {
+        switch (R.below(8))
+        {
+        case 0: { static const long double t[] = {1e400L, -1e400L, 1e4000L, 1.7976931348623157e308L, 1.797693134862315807e308L, 1.797693134862315708e308L * (1 + 0x1p-54L), 1e-400L, -1e-4000L, 4.9e-324L, 2.4703282292062327e-324L, 2.4703282292062328e-324L, 3.6e-4951L, 0.0L, -0.0L, (long double)INFINITY, -(long double)INFINITY, (long double)NAN, 1.0L, 0.1L, 1.0L / 3}; return t[R.below(20)]; }
+        case 1: { double d = value(); return (long double)d * (1 + ldexpl((long double)R.range(-1023, 1023), -63)); }
+        case 2: { double d = value(); return ((long double)d + (long double)nextup(d, 1)) / 2; } // halfway
+        case 3: return ldexpl((long double)(R.next() | (1ull << 63)), (int)R.range(-16445, 16320));  // any exponent
+        case 4: return ldexpl((long double)(R.next() | (1ull << 63)), (int)R.range(960, 964));       // around DBL_MAX
+        case 5: return ldexpl((long double)(R.next() | (1ull << 63)), (int)R.range(-1140, -1080));   // around the denormals
+        default: return (long double)value();
+        }
+    }
+    void emit_pfL(const std::string &fmt, long double v, const std::vector<long> &star)
+    {
+        double x = (double)v;
+        if (g_style_carry(fmt, x, star)) return; // finding class: probes are emitted through pf
+        unsigned char b[16] = {0};
+        memcpy(b, &v, 10);
+        uint64_t m;
+        memcpy(&m, b, 8);
+        unsigned se = b[8] | (b[9] << 8);
+        std::string l = "pfL " + hex(fmt) + " " + hexn(se, 4) + " " + hexn(m, 16);
+        for (long s : star) l += " " + std::to_string(s);
+        puts(l.c_str());
+    }
+    void emit_cvt(long double v)
+    {
+        unsigned char b[16] = {0};
+        memcpy(b, &v, 10);
+        uint64_t m;
+        memcpy(&m, b, 8);
+        unsigned se = b[8] | (b[9] << 8);
+        printf("ar cvt %s %s\n", hexn(se, 4).c_str(), hexn(m, 16).c_str());
+    }
+
     int rand_prec()
     {
         switch (R.below(10))
@@ -653,6 +763,9 @@ static void gen(rng &R, const std::string &tier)
     puts("@F:C13-g-style-carry pf 252e3167 4023000000000000"); // %.1g 9.5 -> 10 (ISO 1e+01)
     puts("@F:C13-ulp-drift pfs 252e313765 6fbf7bc0388d6e12");  // %.17e 1.9093183950992952e+230
     puts("@F:C13-ulp-drift pfs 252e323545 f9993cee194f1223");  // %.25E -5.59e+277
+    puts("@F:C13-hex-float pfa 2561 406ff00000000000");   // %a 255.5 -> 0xf.f80000000000p+1 (ISO 0x1.ffp+7)
+    puts("@F:C13-hex-float pfa 2541 4415af1d78b58c40");   // %A 1e20 -> 0X5.6BC75E2D6310P+10
+    puts("@F:C13-hex-float pfa 252e3361 3fb999999999999a"); // %.3a 0.1 -> 0x1.99ap-1 (ISO 0x1.99ap-4)
     // ---- arithmetic primitives (software binary64 of the model vs the FPU / libm)
     for (int n = 0; n <= 345; n++) printf("ar pow 10 %d\n", n);
     {
@@ -669,6 +782,20 @@ static void gen(rng &R, const std::string &tier)
             if (!strcmp(op, "fmod")) { if (!std::isfinite(b) || b == 0) b = 10.0; b = fabs(b); if (fabs(a) / b > 1e40 && b != 10.0 && b != 1.0) b = 10.0; }
             if (!strcmp(op, "modf") || !strcmp(op, "round")) printf("ar %s %s\n", op, hexn(bits_of(a), 16).c_str());
             else printf("ar %s %s %s\n", op, hexn(bits_of(a), 16).c_str(), hexn(bits_of(b), 16).c_str());
+        }
+    }
+    // ---- the narrowing (double) of a long double, and the L directives
+    {
+        long N = thorough ? 4000 : 400;
+        for (long i = 0; i < N; i++) G.emit_cvt(G.ldvalue());
+        N = thorough ? 6000 : 500;
+        for (long i = 0; i < N; i++)
+        {
+            std::vector<long> star;
+            std::string f = G.directive(star, CONVS[R.below(6)], R.chance(60) ? 0 : (int)R.below(32), R.chance(60) ? 0 : (int)R.below(7), G.rand_prec());
+            if (f.size() >= 2 && f[f.size() - 2] == 'l') f.erase(f.size() - 2, 1);
+            f.insert(f.size() - 1, "L");
+            G.emit_pfL(f, G.ldvalue(), star);
         }
     }
     // ---- exhaustive small space: every flag subset x conversion x {no width, 12} x
@@ -719,6 +846,8 @@ static void run(const std::vector<std::string> &w, const std::string &, out &o)
     if (w.empty()) { o.result = "bad-op"; o.fail("empty"); return; }
     if (w[0] == "pf") run_pf(w, o, false);
     else if (w[0] == "pfs") run_pf(w, o, true);
+    else if (w[0] == "pfL") run_pf(w, o, false, true);
+    else if (w[0] == "pfa") run_pfa(w, o);
     else if (w[0] == "ar") run_ar(w, o);
     else { o.result = "bad-op"; o.fail("bad op"); }
 }
